@@ -567,7 +567,7 @@ impl ActiveSegment
 	pub fn curr_addr(&self) -> u32
 	{
 		// for segments that go up to the end of address space
-		self.base_addr.saturating_add(self.buffer.len() as u32)
+		self.base_addr.saturating_add(u32::try_from(self.buffer.len()).unwrap_or(u32::MAX))
 	}
 	
 	pub fn remaining(&self) -> usize
